@@ -457,7 +457,8 @@ pub fn run(cx: &mut Ctx) {
                 max_cells,
                 allow_unaligned_len: true,
                 cstrings: rng.chance(1, 2),
-                max_labels: if max_cells > 1000 { 400 } else { 24 },
+                // every 5th case: many labels on few addresses (long label tables, crowded buckets)
+                max_labels: if max_cells > 1000 { 400 } else if i % 5 == 0 { 160 } else { 24 },
                 string_len: 12,
             };
             let m = archive::gen_content(&mut rng, &o);
